@@ -27,6 +27,11 @@ def Credentials (P : Prims) (ufrag pwd pkt : Bytes) : Prop :=
   (∃ off u tail, AttrAt pkt off 6 u ∧ u = ufrag ++ 58 :: tail) ∧
   (∃ off mac, AttrAt pkt off 8 mac ∧ mac.length = 20 ∧ mac = P.hmac pwd (withLength (pkt.take off) (off - 20 + 24)))
 
+theorem Boundary.ge20 {pkt : Bytes} {off : Nat} (hb : Boundary pkt off) : 20 ≤ off := by
+  induction hb with
+  | start => exact Nat.le_refl _
+  | next _ _ _ ih => omega
+
 theorem drop_step {pkt : Bytes} {off : Nat} {a b c d : UInt8} {body : Bytes} (h : pkt.drop off = a :: b :: c :: d :: body)
     (n : Nat) : pkt.drop (off + 4 + n) = body.drop n := by
   have : pkt.drop (off + 4) = body := by
